@@ -273,7 +273,10 @@ func init() {
 							tx := rp.Info.TypeOf(be.X)
 							if tx != nil {
 								ts := types.TypeString(tx, nil)
-								if (ts == "go/token.Pos" && g.Neg && (be.Op == token.LSS || be.Op == token.LEQ)) || (ts == "*go/types.Scope" && g.Neg && be.Op == token.EQL) {
+								if ts == "go/token.Pos" && (be.Op == token.LSS || be.Op == token.LEQ || be.Op == token.GTR || be.Op == token.GEQ) {
+									continue // the object is declared inside the copied node (written as an exit on the complement or directly)
+								}
+								if ts == "*go/types.Scope" && ((g.Neg && be.Op == token.EQL) || (!g.Neg && be.Op == token.NEQ)) {
 									continue
 								}
 							}
@@ -590,7 +593,7 @@ func truthMakers(fi *FuncInfo, lit *ast.FuncLit) map[string]bool {
 	var walk func(list []ast.Stmt)
 	var classify func(e ast.Expr, depth int)
 	classify = func(e ast.Expr, depth int) {
-		e = ast.Unparen(e)
+		e = ast.Unparen(fi.orient(ast.Unparen(e)))
 		if depth > 4 {
 			out["other:deep"] = true
 			return
